@@ -10,6 +10,11 @@ property statement and docsite/site/content/reference/typechecking.md:
   named        `constraint c = K; ... :: c` behaves exactly like K written inline, also as one alternative (`c | 9` == `K | 9`);
   let-bound    `let e = <exemplar>; ... :: e` is that exemplar.
 
+  reached      a named constraint reached through any expression the grammar accepts after `::` (parentheses, selector, list element,
+               function result, select, module, imported file) behaves like the constraint written inline (family named_reach);
+  chained      `let x :: C1 = V; let y :: C2 = <use of x>;` builds iff V conforms to C1 and the value the use evaluates to conforms
+               to C2 - what C1 says about other values is irrelevant (family chained_lets).
+
 The build must succeed iff the oracle admits the value; a rejected binding must end in a diagnostic (status ERR with a
 message, never PANIC / CRASH).  Bounded: exactly the enumerated pairs; never counted as proved.
 
@@ -49,8 +54,25 @@ KNOWN = [
          observed='builds; so do `let x :: a = [2, [4]];` and `constraint a = a | 1; let x :: a = 2;` (a constraint that refers to itself is checked by shape only: '
                   'ranges and literal alternatives are not enforced)',
          clause='a range admits numbers between the inclusive bounds, an alternation admits a value equal to one of its alternatives or inside one of its ranges'),
+    # --- found by the families named_reach / chained_lets (same root: exemplars are checked by the static type checker only)
+    # exclusion: constraint expressions of unknown / union static type (LOOSE_REACH) are run with ranges and alternations only
+    dict(id='loose_constraint_expr', input='let e = 0;\nlet kf = func(a) => a;\nlet x :: kf(e) = "s";',
+         observed='builds; so does `let x :: ((import "lib.ucg").n) = "s";` with lib.ucg = `let n = 0;` (the mirror image of `identity`: when the static type of the '
+                  'constraint EXPRESSION is unknown an exemplar constrains nothing; `let lib = import "lib.ucg"; let x :: (lib.n) = "s";` is refused)',
+         clause='a named constraint behaves exactly like the same constraint written inline'),
+    # exclusion: first constraint a pure exemplar AND second constraint a pure exemplar AND the value conforms to the second AND the value widened by
+    # what the first exemplar says beyond it (fields the value lacks; inside a tuple, element types where the value is `[]`) does not
+    dict(id='wider_exemplar_remembered', input='let x :: {a = 0, b = ""} = {a = 1};\nlet y :: {a = 0, b = 0} = x;',
+         observed='refused (Incompatible Tuple Shapes) although the value of x, {a = 1}, conforms to {a = 0, b = 0}: the binding is remembered with the fields of the exemplar it '
+                  'does not have (flip side of fix 3247ac2); so are `let x :: {a = 0} = {}; let y :: {z = 1} = x;` and `let e = {l = [""]}; let x :: e = {l = []}; let y :: {l = [true]} = x;`',
+         clause=CLAUSE),
+    # exclusion: first constraint a pure exemplar with `[]` where the value has a non-empty list AND second constraint a pure exemplar AND the value
+    # does not conform to the second AND the value with those lists emptied (an element of an emptied list: anything) would
+    dict(id='empty_list_exemplar_forgets', input='let x :: [] = [1];\nlet y :: [""] = x;',
+         observed='builds although [1] does not conform to [""]; so do `let y :: "s" = x.0;` and `let y :: [true] = x + x;` (after `:: []` the element type of the value is forgotten)',
+         clause=CLAUSE),
 ]
-KNOWN_FORMS = set(k['id'] for k in KNOWN) - {'selfref_shape_only'}
+KNOWN_FORMS = set(k['id'] for k in KNOWN) - {'selfref_shape_only', 'loose_constraint_expr', 'wider_exemplar_remembered', 'empty_list_exemplar_forgets'}
 
 
 # ------------------------------------------------------------------ values
@@ -639,7 +661,8 @@ def reach_values(K, rnd, n):
         edge = [v for v in vs if v[0] == K[1] and any(b is not None and abs(v[1] - b) <= 1 for b in (K[2], K[3]))]
     elif K[0] == 'alt':
         vs = relevant(K[1], rnd, 2)
-        edge = [v for v in vs if not admits(K, v) and any(compat(a[1], v) for a in flat_arms(K) if a[0] in ('ex', 'letex'))] + [v for v in vs if admits(K, v)][:2]
+        kinds = set(a[1] if a[0] == 'rng' else a[1][0] for a in flat_arms(K))
+        edge = [v for v in vs if not admits(K, v) and v[0] in kinds] + [v for v in vs if admits(K, v)][:2]
     else:
         e = K[1]
         vs = dedup([e, bump(e)] + mutants(e) + POOL)
@@ -693,11 +716,11 @@ def standin_named_reach(tier, seed):
                 exs = REACH_EXEMPLARS if thorough else rnd.sample(REACH_EXEMPLARS, 2)
                 ks += [(('ex', e), rnd.choice(['constraint', 'let']) if not thorough else k) for e in exs for k in (['constraint', 'let'] if thorough else [None])]
             for K, kind in ks:
-                vals = reach_values(K, rnd, None if thorough else 6)
+                vals = reach_values(K, rnd, (14 if K[0] != 'ex' else 10) if thorough else 6)
                 for v in vals:
                     one(K, kind, form, v, None)
                 if K[0] != 'ex':
-                    for v in (vals if thorough else rnd.sample(vals, min(3, len(vals)))) + [SPELL_ARM]:
+                    for v in rnd.sample(vals, min(6 if thorough else 3, len(vals))) + [SPELL_ARM]:
                         one(K, kind, form, v, rnd.choice(['first', 'last']))
                 if thorough:
                     for v in rnd.sample(vals, min(3, len(vals))):
@@ -714,7 +737,7 @@ def standin_named_reach(tier, seed):
                      'type [identity function, function of a field, two-branch select, mixed list, selector on an inline import], run with ranges / alternations only) x %s of (%d ranges, %d alternations [each also as first / last alternative next to a literal], '
                      '%d exemplars by `constraint` and by `let`) x %s; int range bounds spelled by names, arithmetic, tuple fields'
                      % (len(REACH_FORMS), 'all' if thorough else 'seeded 4 + 2', len(REACH_RANGES), len(REACH_ALTS), len(REACH_EXEMPLARS),
-                        'all deciding values (lo-1, lo, hi, hi+1, every literal and its neighbours, other types), literal and 3 computed' if thorough else '6 seeded deciding values'))
+                        'up to 14 deciding values (lo-1, lo, lo+1, hi-1, hi, hi+1, every literal and its neighbours first, then other types), literal and 3 computed' if thorough else '6 seeded deciding values'))
     finally:
         shutil.rmtree(libdir, ignore_errors=True)
 
@@ -869,8 +892,8 @@ def standin_chained_lets(tier, seed):
                 c2s = second_constraints(w)
                 if not thorough and len(c2s) > 7:
                     c2s = c2s[:1] + rnd.sample(c2s[1:], 6)
-                elif thorough and len(c2s) > 16:
-                    c2s = c2s[:2] + rnd.sample(c2s[2:], 14)
+                elif thorough and len(c2s) > 12:
+                    c2s = c2s[:2] + rnd.sample(c2s[2:], 10)
                 e1 = shape_of(c1)
                 # what the same use gives for the value as the KNOWN defects see it (None: the use has no static type at all, e.g. an element of `[]`)
                 w_wide = use_forms(widened(e1, v)).get(un, (0, 0, w))[2] if e1 is not None else w
@@ -880,7 +903,7 @@ def standin_chained_lets(tier, seed):
                     if ok1 and static_only(c2) and ((ok and not admits(c2, w_wide)) or (not ok and (w_empty is None or admits(c2, w_empty)))):
                         b.skipped += 1          # KNOWN: wider_exemplar_remembered / empty_list_exemplar_forgets
                         continue
-                    for c2w in ([c2, ('named', c2)] if thorough else [rnd.choice([c2, c2, ('named', c2)])]):
+                    for c2w in ([c2, ('named', c2)] if thorough and rnd.random() < 0.3 else [rnd.choice([c2, c2, ('named', c2)])]):
                         pre = []
                         t1 = csrc(c1, pre)
                         first = pre + ['let x :: %s = %s;' % (t1, vsrc(v))]
@@ -895,7 +918,7 @@ def standin_chained_lets(tier, seed):
                  'element types, plain exemplars, ranges, 3 that refuse the value) x their %d values x %s uses of the binding (direct, alias, inside a list / tuple, through a field, '
                  'list element, function, select, module, copy, selector of each field, element, arithmetic) x %s second constraints (the shape of the used value, every single-node edit of '
                  'it, every primitive, ranges / alternations around it; inline and named)'
-                 % (len(CHAIN_FIRST), sum(len(v) for _, v in CHAIN_FIRST), 'all' if thorough else '5 seeded', 'up to 16 seeded' if thorough else '7 seeded'))
+                 % (len(CHAIN_FIRST), sum(len(v) for _, v in CHAIN_FIRST), 'all' if thorough else '5 seeded', 'up to 12 seeded' if thorough else '7 seeded'))
 
 
 STANDINS = [standin_exemplar_shapes, standin_range_bounds, standin_alternations, standin_recursive_documented, standin_named_reach, standin_chained_lets]
